@@ -167,6 +167,9 @@ func (f *Frame) inline(st *State, callee *ssa.Function, args, bindings []Val, po
 	sub := &Frame{vc: f.vc, fn: callee, fname: fnDisplayName(callee), depth: f.depth + 1, parent: f}
 	sub.spec = f.vc.eng.specs.funcSpec(callee)
 	if sub.spec != nil {
+		if specUsesFieldSets(sub.spec) {
+			f.vc.useFS = true
+		}
 		sub.bindLoopInvs()
 	}
 	res, out := sub.run(st, args, bindings)
@@ -335,6 +338,9 @@ func (f *Frame) contractCall(st *State, spec *FuncSpec, callee *ssa.Function, ar
 	}
 	env.results = results
 	for _, e := range spec.Ensures {
+		if skipLabel(e.Label) {
+			continue
+		}
 		t := env.evalBool(e.Expr, st, pre)
 		vc.fact(Imp(st.reach, t))
 	}
@@ -571,6 +577,9 @@ func (f *Frame) specOnlyCall(st *State, spec *FuncSpec, args []Val, sig *types.S
 	}
 	env.results = results
 	for _, e := range spec.Ensures {
+		if skipLabel(e.Label) {
+			continue
+		}
 		vc.fact(Imp(st.reach, env.evalBool(e.Expr, st, pre)))
 	}
 	if f.ownOn() {
